@@ -369,23 +369,35 @@ def op_write(st, o):
         st.fs.delete(scratch)
         c = resolve_cut(fault["where"], layout, rep)
         c = max(0, min(layout["size"] - 1, c))
-        st.fs.crash_plan[rel] = c
+        how = fault.get("how", "crash")
+        st.fs.crash_plan[rel] = (c, how)
         crashed = False
         try:
             res = lib_write(st, obj, rel, fmt, rep, opts)
         except SimCrash:
             crashed = True
-        if not crashed:
-            raise HarnessError(f"torn write at {c} of {layout['size']} did not crash")
-        st.stats.fault("torn_write")
+        if how == "enospc":
+            # disk full: the writer gets an OSError at byte c and the process lives on. What
+            # to_file does with it is not stated by any property (tallied); the file is torn
+            # exactly like after a crash, and the recovery phase writes the path again.
+            if crashed or st.fs.size(rel) != c:
+                raise HarnessError(f"disk-full write at {c}: crashed={crashed} size={st.fs.size(rel)}")
+            st.stats.hit("observed/enospc:" + ("raised-" + type(res.e).__name__ if res.raised else "swallowed"))
+            st.stats.fault("disk_full")
+        else:
+            if not crashed:
+                raise HarnessError(f"torn write at {c} of {layout['size']} did not crash")
+            st.stats.fault("torn_write")
         where = classify_cut(c, layout)
         st.stats.probe("cut_in_" + where)
+        if how == "enospc":
+            st.stats.probe("disk_full_write")
         if layout["chunks"] and len(layout["chunks"]) > 1:
             st.stats.probe("multi_chunk_write")
         pm = PathM(fmt, rep, opts, fsh, _expected_subs(old, fsh, opts), layout)
         pm.damage = ("cut", where, c)
         st.paths[rel] = pm
-        return f"torn:{where}"
+        return f"{'full' if how == 'enospc' else 'torn'}:{where}"
     mark = len(st.fs.log)
     res = lib_write(st, obj, rel, fmt, rep, opts)
     if res.raised:
